@@ -54,9 +54,9 @@ Definition x_check (v4 : bool) (dport : N) (p : bytes) (ck lo n : nat) (v1 v2 : 
 
 (* HTTP over TCP/IPv4 and TCP/IPv6: the Date value (29 bytes after Ethernet 14 + IP 20|40 +
    TCP 20 + 53 bytes of template) *)
-Example ex_http_tcp4 : x_check true 80 x_get 50 107 29 (clk_date x_clk1) (clk_date x_clk2) = true.
+Example ex_http_tcp4 : x_check true 80 x_get 50 (54 + length (e_http_pre the_env)) 29 (clk_date x_clk1) (clk_date x_clk2) = true.
 Proof. vm_compute. reflexivity. Qed.
-Example ex_http_tcp6 : x_check false 80 x_get 70 127 29 (clk_date x_clk1) (clk_date x_clk2) = true.
+Example ex_http_tcp6 : x_check false 80 x_get 70 (74 + length (e_http_pre the_env)) 29 (clk_date x_clk1) (clk_date x_clk2) = true.
 Proof. vm_compute. reflexivity. Qed.
 
 (* SMB2 negotiate: SystemTime and ServerStartTime, 16 bytes at 108 of the payload;
@@ -111,7 +111,8 @@ Definition x_check_norm (v4 tcp : bool) : bool :=
     (length tb1 =? length tb2)%nat && (length e1 =? length e2)%nat &&
     (S (length r1) =? length r2)%nat &&
     bytes_eqb (norm_frame r1) (norm_frame r2) && negb (bytes_eqb (mask_frame r1) (mask_frame r2)) &&
-    (length (norm_frame r1) + 31 =? length r1)%nat   (* the space after "Date:" and 30 bytes *)
+    (let d := (length r1 - length (norm_frame r1))%nat in (d =? 30)%nat || (d =? 31)%nat)
+    (* the 30 bytes of the value, and the space after "Date:" when the template's prefix stops before it *)
   | _, _ => false
   end.
 
